@@ -166,6 +166,27 @@ GROUPS2 = {
               ref='decide ((length : Int) > total - i)', grid={'length': [0, 1, 2, 3, 4, 5, 8, 2 ** 22, 2 ** 32 - 1], 'total': [0, 1, 3, 4, 5, 8, 12, 2 ** 22 + 4],
                                                               'i': [0, 1, 4, 5, 8, 9, 12, 13, 16]}),
         ]),
+    # ------------------------------------------------------------------ C15
+    'MsgLayout': dict(
+        src='pytoniq_core/tlb/transaction.py', imports=[], ref_imports=[],
+        targets=[
+            T('msgInitInline', 'MessageAny', 'serialize',
+              ('stmts', 'bits_left = __ANY1__', 'body_fits = __ANY2__',
+               ('match', "if __X__:\n    builder.store_bit(0)\n    builder.store_cell(init_cell)\nelse:\n    ...")),
+              {'builder.available_bits': ('ab', Z), 'builder.available_refs': ('ar', Z), 'len(init_cell.bits)': ('ib', N),
+               'len(init_cell.refs)': ('ir', N), 'len(self.body.bits)': ('bb', N), 'self.body.refs': ('br', N), 'len(self.body.refs)': ('br', N)},
+              ['ab', 'ar', 'ib', 'ir', 'bb', 'br'], ret='Bool',
+              ref='(decide (ab - 2 - (ib : Int) ≥ 0) && (decide (ar - (ir : Int) ≥ 1) || (decide (ar - (ir : Int) = 0) && decide (br = 0) && '
+                  'decide ((bb : Int) ≤ ab - 2 - (ib : Int)))))',
+              grid={'ab': [0, 1, 2, 3, 10, 11, 12, 500, 1021, 1022], 'ar': [0, 1, 2, 3, 4], 'ib': [0, 1, 5, 8, 9, 10, 498, 1021], 'ir': [0, 1, 2, 3, 4],
+                    'bb': [0, 1, 2, 3, 4, 5, 6, 1023], 'br': [0, 1, 4]}),
+            T('msgBodyInline', 'MessageAny', 'serialize',
+              ('match', "if __X__:\n    builder.store_bit(0)\n    builder.store_cell(self.body)\nelse:\n    ..."),
+              {'builder.available_bits': ('ab', Z), 'builder.available_refs': ('ar', Z), 'len(self.body.bits)': ('bb', N),
+               'len(self.body.refs)': ('br', N)}, ['ab', 'ar', 'bb', 'br'], ret='Bool',
+              ref='(decide ((bb : Int) ≤ ab - 1) && decide ((br : Int) ≤ ar))',
+              grid={'ab': [0, 1, 2, 3, 500, 1021, 1022], 'ar': [0, 1, 2, 3, 4], 'bb': [0, 1, 2, 3, 499, 500, 1020, 1021, 1022, 1023], 'br': [0, 1, 2, 3, 4]}),
+        ]),
 }
 
 arith.GROUPS.update(GROUPS2)
